@@ -102,6 +102,9 @@ func (p *GTElt) Neg(a kyber.Point) kyber.Point {
 }
 
 func (p *GTElt) Mul(s kyber.Scalar, q kyber.Point) kyber.Point {
+	if q == nil {
+		q = new(GTElt).Base()
+	}
 	qq, ss := q.(*GTElt), s.(*Scalar)
 	var scalar big.Int
 	ss.inner.BigInt(&scalar)
